@@ -25,8 +25,6 @@ use lightning::sign::EntropySource;
 use lightning::types::payment::{PaymentHash, PaymentSecret};
 use lightning::util::logger::{Logger, Record};
 
-#[path = "c04/mpp.rs"]
-mod mpp;
 
 struct FixedEntropy(Mutex<[u8; 32]>);
 impl EntropySource for FixedEntropy { fn get_secure_random_bytes(&self) -> [u8; 32] { *self.0.lock().unwrap() } }
@@ -247,5 +245,1017 @@ fn main() {
 		"c04secret" => secret_model(&args),
 		"c04mpp" => mpp::mpp_model(&args),
 		m => { eprintln!("unknown model {}", m); std::process::exit(2); }
+	}
+}
+
+/// c04mpp — end-to-end MPP receive scenarios on real nodes (second model of this binary).
+mod mpp {
+	//! c04mpp — end-to-end MPP receive scenarios on real nodes (see ../c04.rs for the op protocol).
+	//!
+	//! A sender (node 0; sometimes a second sender, node 2) pays a receiver (node 1) over 2–4 parallel
+	//! channels.  Every MPP part is sent as its own single-path payment with the same payment hash and
+	//! payment secret and a chosen onion `total_msat`, so that the harness decides what the receiver's
+	//! per-hash accumulator sees and in which order.  After every step everything is delivered
+	//! (`Net::settle`) and what the RECEIVER did is read off its outbound messages and events:
+	//!   update_fail_htlc -> `fail:<id>`, update_fulfill_htlc -> `fulfil:<id>`,
+	//!   Event::PaymentClaimable -> `claimable:<amt>:<deadline>`, Event::PaymentClaimed -> `claimed:<amt>`.
+	//! `id = rank(channel_id among the receiver's channels) * 1_000_000 + htlc_id`.
+	//!
+	//! Impl-side oracles (no Lean model involved) are in `Scn::{op_part, op_claim, absorb}` and `bad_part`.
+	use ldk_verif_harness::common::*;
+	use ldk_verif_harness::sim::*;
+	use std::collections::{BTreeMap, BTreeSet};
+	use std::panic::AssertUnwindSafe;
+
+	use bitcoin::hashes::{sha256, Hash};
+	use lightning::chain::channelmonitor::HTLC_FAIL_BACK_BUFFER;
+	use lightning::events::Event;
+	use lightning::ln::channelmanager::PaymentId;
+	use lightning::ln::functional_test_utils::{connect_block, connect_blocks, create_dummy_block, ConnectStyle};
+	use lightning::ln::outbound_payment::{RecipientCustomTlvs, RecipientOnionFields};
+	use lightning::ln::verif_hooks as vh;
+	use lightning::routing::router::{Path, PaymentParameters, Route, RouteHop, RouteParameters};
+	use lightning::types::features::{ChannelFeatures, NodeFeatures};
+	use lightning::types::payment::{PaymentHash, PaymentPreimage, PaymentSecret};
+
+	const RECV: usize = 1;
+	const EVEN_TLV: u64 = 65536;
+	const ODD_TLV: u64 = 65537;
+
+	fn short(s: &str) -> String { s.replace('\n', " ").chars().take(100).collect() }
+
+	// ------------------------------------------------------------------------------------------------
+	// the network
+	// ------------------------------------------------------------------------------------------------
+
+	struct World {
+		net: Net,
+		/// (sender node, channel index) of every channel into the receiver
+		routes: Vec<(usize, usize)>,
+		/// channel index -> rank of its channel_id among the receiver's channels
+		rank: Vec<u64>,
+		/// every HTLC id the receiver has ever failed / fulfilled on this network (oracle 3)
+		failed: BTreeSet<u64>,
+		fulfilled: BTreeSet<u64>,
+		/// block timestamps: the receiver's `highest_seen_timestamp` is at most this
+		clock: u32,
+		pay_ctr: u64,
+		used: u32,
+		/// a panic / protocol error / stuck HTLC happened: do not reuse
+		bad: bool,
+	}
+
+	fn equalize(net: &Net) {
+		let top = net.nodes.iter().map(|n| n.best_block_info().1).max().unwrap();
+		for n in net.nodes.iter() { let h = n.best_block_info().1; if h < top { connect_blocks(n, top - h); } }
+	}
+
+	fn build_world(rng: &mut Rng, minimal: bool) -> Result<World, String> {
+		let three = !minimal && rng.chance(2, 5);
+		let k = if minimal { 2 } else { 2 + rng.below(2) as usize };
+		guarded(AssertUnwindSafe(|| {
+			let n = if three { 3 } else { 2 };
+			let mut net = Net::new(n, vec![None; n]);
+			// deterministic block delivery (create_network picks a random style per node)
+			for nd in net.nodes.iter() { *nd.connect_style.borrow_mut() = ConnectStyle::FullBlockViaListen; }
+			let mut routes = vec![];
+			for _ in 0..k { equalize(&net); let c = net.open(0, RECV, 10_000_000, 1_000_000_000); routes.push((0, c)); }
+			if three { equalize(&net); let c = net.open(2, RECV, 10_000_000, 1_000_000_000); routes.push((2, c)); }
+			equalize(&net);
+			net.pump_all();
+			net.settle(10);
+			let mut order: Vec<usize> = (0..net.chans.len()).collect();
+			order.sort_by_key(|c| net.chans[*c].2);
+			let mut rank = vec![0u64; net.chans.len()];
+			for (r, c) in order.iter().enumerate() { rank[*c] = r as u64; }
+			let clock = bitcoin::constants::genesis_block(bitcoin::Network::Testnet).header.time;
+			World { net, routes, rank, failed: BTreeSet::new(), fulfilled: BTreeSet::new(), clock, pay_ctr: 0, used: 0, bad: false }
+		}))
+	}
+
+	impl World {
+		fn height(&self) -> u32 { self.net.nodes[RECV].best_block_info().1 }
+		/// the receiver's settled balance over all its channels
+		fn recv_balance(&self) -> u64 {
+			let mut t = 0;
+			for (a, _b, cid, _) in self.net.chans.iter() { t += vh::channel_value_to_self_msat(self.net.nodes[RECV].node, &self.net.ids[*a], cid).unwrap_or(0); }
+			t
+		}
+		fn recv_has_pending_htlcs(&self) -> bool {
+			self.net.nodes[RECV].node.list_channels().iter().any(|c| !c.pending_inbound_htlcs.is_empty() || !c.pending_outbound_htlcs.is_empty())
+		}
+		fn reset_logs(&mut self) {
+			// `Net::deliver` scans the whole trace: keep it short
+			self.net.trace.clear();
+			for e in self.net.events.iter_mut() { e.clear(); }
+			for c in self.net.claimable.iter_mut() { c.clear(); }
+			self.net.pays.clear();
+		}
+	}
+
+	struct Added { htlc_id: u64, amount: u64, cltv: u32 }
+
+	/// One single-path payment `from -> RECV` over channel `chan`, `amt` msat, with the given onion fields.
+	/// Returns the update_add_htlc the sender queued (nothing is delivered yet).
+	fn send_raw(w: &mut World, from: usize, chan: usize, hash: PaymentHash, onion: RecipientOnionFields, amt: u64, delta: u32) -> Result<Added, String> {
+		w.pay_ctr += 1;
+		let mut pid = [0u8; 32];
+		pid[..8].copy_from_slice(&w.pay_ctr.to_be_bytes());
+		pid[8..16].copy_from_slice(&amt.to_be_bytes());
+		pid[31] = 0x4d;
+		let net = &mut w.net;
+		let c = net.chans[chan];
+		let hops = vec![RouteHop { pubkey: net.ids[RECV], node_features: NodeFeatures::empty(), short_channel_id: c.3,
+			channel_features: ChannelFeatures::empty(), fee_msat: amt, cltv_expiry_delta: delta, maybe_announced_channel: true }];
+		let params = PaymentParameters::from_node_id(net.ids[RECV], delta);
+		let route = Route { paths: vec![Path { hops, blinded_tail: None }], route_params: RouteParameters::from_payment_params_and_value(params, amt) };
+		let r = net.nodes[from].node.send_payment_with_route(route, hash, onion, PaymentId(pid));
+		net.pump(from);
+		if let Err(e) = r { return Err(format!("{:?}", e)); }
+		let mut found = None;
+		if let Some(q) = net.q.get(&(from, RECV)) {
+			for wire in q.iter() { if let Wire::Add(m) = wire { if m.payment_hash == hash && m.channel_id == c.2 { found = Some(Added { htlc_id: m.htlc_id, amount: m.amount_msat, cltv: m.cltv_expiry }); } } }
+		}
+		found.ok_or_else(|| "no update_add_htlc queued".to_string())
+	}
+
+	/// `Net::settle`, with the receiver's persister in InProgress mode: monitor updates of the receiver's
+	/// channels are completed at once except on the channels in `hold`
+	fn settle_holding(net: &mut Net, hold: &BTreeSet<usize>) {
+		for _ in 0..80 {
+			let mut moved = false;
+			while let Some((i, j)) = net.any_queued() { net.deliver(i, j); moved = true; }
+			for c in 0..net.chans.len() {
+				if hold.contains(&c) { continue; }
+				for id in net.pending_updates(RECV, c) { if net.complete(RECV, c, id) { moved = true; } }
+			}
+			for i in 0..net.nodes.len() {
+				if net.nodes[i].node.needs_pending_htlc_processing() { net.forward(i); moved = true; }
+				let before = net.trace.len();
+				net.process_events(i);
+				if net.trace.len() != before { moved = true; }
+			}
+			if !moved { break; }
+		}
+	}
+
+	// ------------------------------------------------------------------------------------------------
+	// observations
+	// ------------------------------------------------------------------------------------------------
+
+	#[derive(Default)]
+	struct Seen {
+		fails: Vec<u64>,
+		fulfils: Vec<u64>,
+		claimable: Vec<(u64, u32)>,
+		claimed: Vec<u64>,
+		handling_failed: Vec<String>,
+		trouble: Option<String>,
+	}
+
+	impl Seen {
+		fn answer(&self) -> String {
+			let mut t: Vec<String> = vec![];
+			for (a, d) in &self.claimable { t.push(format!("claimable:{}:{}", a, d)); }
+			for i in &self.fails { t.push(format!("fail:{}", i)); }
+			for i in &self.fulfils { t.push(format!("fulfil:{}", i)); }
+			for a in &self.claimed { t.push(format!("claimed:{}", a)); }
+			if t.is_empty() { "none".into() } else { t.join(" ") }
+		}
+		fn nothing(&self) -> bool { self.fails.is_empty() && self.fulfils.is_empty() && self.claimable.is_empty() && self.claimed.is_empty() }
+	}
+
+	/// what the receiver did since trace position `tpos` / event position `epos`
+	fn observe(w: &World, hash: &PaymentHash, tpos: usize, epos: usize) -> Seen {
+		let mut s = Seen::default();
+		for o in &w.net.trace[tpos.min(w.net.trace.len())..] {
+			match o {
+				Obs::Msg { from, kind, chan, htlc_id, .. } if *from == RECV && *chan != usize::MAX => {
+					let id = w.rank[*chan] * 1_000_000 + *htlc_id;
+					match *kind { "fail" | "malformed" => s.fails.push(id), "fulfill" => s.fulfils.push(id), _ => {} }
+				},
+				Obs::ProtoError { node, text } => { s.trouble = Some(format!("protocol error at node {}: {}", node, short(text))); },
+				_ => {},
+			}
+		}
+		let evs = &w.net.events[RECV];
+		for e in &evs[epos.min(evs.len())..] {
+			match e {
+				Event::PaymentClaimable { payment_hash, amount_msat, claim_deadline, .. } => {
+					if payment_hash == hash { s.claimable.push((*amount_msat, claim_deadline.unwrap_or(0))); } else { s.trouble = Some("PaymentClaimable for a foreign hash".into()); }
+				},
+				Event::PaymentClaimed { payment_hash, amount_msat, .. } => {
+					if payment_hash == hash { s.claimed.push(*amount_msat); } else { s.trouble = Some("PaymentClaimed for a foreign hash".into()); }
+				},
+				Event::HTLCHandlingFailed { failure_type, failure_reason, .. } => s.handling_failed.push(format!("{:?} {:?}", failure_type, failure_reason)),
+				_ => {},
+			}
+		}
+		if !w.net.closed.is_empty() { s.trouble = Some(format!("channel closed: {}", short(&w.net.closed[0].1))); }
+		s.fails.sort(); s.fulfils.sort();
+		s
+	}
+
+	// ------------------------------------------------------------------------------------------------
+	// one scenario = one payment hash
+	// ------------------------------------------------------------------------------------------------
+
+	#[derive(Clone, Copy, PartialEq, Debug)]
+	enum Tlv { No, Even(u8), Odd(u8), Both(u8, u8) }
+	impl Tlv {
+		fn even(&self) -> Option<u8> { match self { Tlv::Even(v) | Tlv::Both(v, _) => Some(*v), _ => None } }
+		fn list(&self) -> Vec<(u64, Vec<u8>)> {
+			match self { Tlv::No => vec![], Tlv::Even(v) => vec![(EVEN_TLV, vec![*v])], Tlv::Odd(o) => vec![(ODD_TLV, vec![*o])], Tlv::Both(v, o) => vec![(EVEN_TLV, vec![*v]), (ODD_TLV, vec![*o])] }
+		}
+	}
+
+	#[derive(Clone, Debug)]
+	struct PartSpec { route: usize, amt: u64, total: u64, delta: u32, sec: usize, tlv: Tlv }
+
+	#[derive(Clone, Debug)]
+	struct Held { id: u64, value: u64, intended: u64, total: u64, cltv: u32 }
+
+	#[derive(PartialEq, Clone, Copy, Debug)]
+	enum PartOut { Held, Claimable, Rejected, Abort }
+
+	struct Scn {
+		hash: PaymentHash,
+		preimage: PaymentPreimage,
+		secrets: Vec<PaymentSecret>,
+		min: u64,
+		/// what the harness has seen arrive at the receiver and neither fail nor fulfil (derived from observations only)
+		held: Vec<Held>,
+		/// ids / deadline / even-TLV flag of the last PaymentClaimable, while no fail-back or removal happened since
+		claimable_set: Option<(Vec<u64>, u32, bool)>,
+		/// claim deadline of the last PaymentClaimable (kept for the deadline schedules)
+		deadline: Option<u32>,
+		dead: bool,
+		stuck: bool,
+		bal0: u64,
+		claimed_total: u64,
+		kind: &'static str,
+	}
+
+	impl Scn {
+		fn new(w: &mut World, rec: &mut Rec, rng: &mut Rng, kind: &'static str, min: Option<u64>, two_secrets: bool, expiry_delta: u32) -> Scn {
+			w.reset_logs();
+			w.used += 1;
+			let preimage = PaymentPreimage(rng.bytes32());
+			let hash = PaymentHash(sha256::Hash::hash(&preimage.0).to_byte_array());
+			let node = w.net.nodes[RECV].node;
+			let mut secrets = vec![node.create_inbound_payment_for_hash(hash, min, expiry_delta, None, None).unwrap().0];
+			if two_secrets {
+				// a second invoice for the same hash (another minimum) has another, equally valid, secret
+				let m2 = Some(min.unwrap_or(4) / 2 + 1);
+				let s2 = node.create_inbound_payment_for_hash(hash, m2, expiry_delta, None, None).unwrap().0;
+				if s2 != secrets[0] { secrets.push(s2); }
+			}
+			rec.directive("new");
+			Scn { hash, preimage, secrets, min: min.unwrap_or(0), held: vec![], claimable_set: None, deadline: None, dead: false, stuck: false, bal0: w.recv_balance(), claimed_total: 0, kind }
+		}
+
+		fn onion(&self, p: &PartSpec, secret: PaymentSecret) -> RecipientOnionFields {
+			let f = RecipientOnionFields::secret_only(secret, p.total);
+			let l = p.tlv.list();
+			if l.is_empty() { f } else { f.with_custom_tlvs(RecipientCustomTlvs::new(l).unwrap()) }
+		}
+
+		/// book-keeping common to all ops: oracle 3 (an HTLC is never both failed and fulfilled), held-set update
+		fn absorb(&mut self, w: &mut World, rec: &mut Rec, seen: &Seen, op: &str) {
+			for i in &seen.fails {
+				if w.fulfilled.contains(i) || seen.fulfils.contains(i) { rec.oracle_fail(format!("[{}] HTLC {} both fulfilled and failed (at `{}`)", self.kind, i, op)); }
+				w.failed.insert(*i);
+			}
+			for i in &seen.fulfils {
+				if w.failed.contains(i) { rec.oracle_fail(format!("[{}] HTLC {} both failed and fulfilled (at `{}`)", self.kind, i, op)); }
+				w.fulfilled.insert(*i);
+			}
+			let before = self.held.len();
+			self.held.retain(|h| !seen.fails.contains(&h.id) && !seen.fulfils.contains(&h.id));
+			if self.held.len() != before { self.claimable_set = None; }
+			if seen.trouble.is_some() { w.bad = true; self.dead = true; }
+		}
+
+		/// drive the nodes under catch_unwind, then deliver everything
+		fn drive<F: FnOnce(&mut World)>(&mut self, w: &mut World, f: F) -> Result<(), String> {
+			let r = guarded(AssertUnwindSafe(|| { f(w); w.net.pump_all(); w.net.settle(60); }));
+			if r.is_err() { w.bad = true; self.dead = true; }
+			r
+		}
+
+		fn op_part(&mut self, w: &mut World, rec: &mut Rec, p: &PartSpec) -> PartOut {
+			if self.dead { return PartOut::Abort; }
+			let (from, chan) = w.routes[p.route % w.routes.len()];
+			let (tpos, epos) = (w.net.trace.len(), w.net.events[RECV].len());
+			let onion = self.onion(p, self.secrets[p.sec % self.secrets.len()]);
+			let hash = self.hash;
+			let sent = guarded(AssertUnwindSafe(|| send_raw(w, from, chan, hash, onion, p.amt, p.delta)));
+			let add = match sent {
+				Ok(Ok(a)) => a,
+				Ok(Err(_)) => { self.dead = true; rec.discarded += 1; return PartOut::Abort; },
+				Err(_) => { self.dead = true; w.bad = true; rec.discarded += 1; return PartOut::Abort; },
+			};
+			let id = w.rank[chan] * 1_000_000 + add.htlc_id;
+			let ev = p.tlv.even();
+			let tag = (p.sec % self.secrets.len()) as u64 * 1000 + match ev { None => 1, Some(v) => 2 + v as u64 };
+			let op = format!("part {} {} {} {} {} {} {}", id, add.amount, p.amt, p.total, add.cltv, tag, ev.is_some() as u8);
+			if let Err(m) = self.drive(w, |_| {}) { rec.case(&op, &format!("panic {}", short(&m)), "part:panic", true); return PartOut::Abort; }
+			let seen = observe(w, &self.hash, tpos, epos);
+			if std::env::var("C04MPP_DEBUG").is_ok() { for o in &w.net.trace[tpos..] { eprintln!("  {}", fmt_obs(o)); } }
+			let out;
+			if seen.fails.contains(&id) {
+				// only a failure by the payment logic (after verify) is a `part` the accumulator saw
+				if !seen.handling_failed.iter().any(|t| t.contains("Receive") && t.contains("IncorrectPaymentDetails")) {
+					self.dead = true; rec.discarded += 1; self.absorb(w, rec, &seen, &op); return PartOut::Abort;
+				}
+				if !seen.claimable.is_empty() { rec.oracle_fail(format!("[{}] `{}`: the part was failed back AND a PaymentClaimable was generated ({})", self.kind, op, seen.answer())); }
+				rec.case(&op, &seen.answer(), "part:rejected", true);
+				out = PartOut::Rejected;
+			} else {
+				self.held.push(Held { id, value: add.amount, intended: p.amt, total: p.total, cltv: add.cltv });
+				if let Some((amt, dl)) = seen.claimable.first().copied() {
+					// oracle 1: claimable only if complete, with the right amount and deadline
+					let held: Vec<&Held> = self.held.iter().filter(|h| !seen.fails.contains(&h.id)).collect();
+					let sum_int: u64 = held.iter().map(|h| h.intended).sum();
+					let sum_val: u64 = held.iter().map(|h| h.value).sum();
+					let min_cltv = held.iter().map(|h| h.cltv).min().unwrap_or(0);
+					let desc = format!("[{}] `{}` -> {} with held parts {:?}", self.kind, op, seen.answer(), self.held);
+					if held.iter().any(|h| h.total != p.total) { rec.oracle_fail(format!("PaymentClaimable over parts with different total_msat: {}", desc)); }
+					if sum_int < p.total { rec.oracle_fail(format!("PaymentClaimable for an incomplete set (sum intended {} < total_msat {}): {}", sum_int, p.total, desc)); }
+					if amt != sum_val { rec.oracle_fail(format!("PaymentClaimable amount {} != sum of held HTLC values {}: {}", amt, sum_val, desc)); }
+					if dl != min_cltv.saturating_sub(HTLC_FAIL_BACK_BUFFER) { rec.oracle_fail(format!("PaymentClaimable claim_deadline {} != min cltv {} - {}: {}", dl, min_cltv, HTLC_FAIL_BACK_BUFFER, desc)); }
+					if p.total < self.min { rec.oracle_fail(format!("PaymentClaimable below the invoice minimum {}: {}", self.min, desc)); }
+					if seen.claimable.len() > 1 { rec.oracle_fail(format!("two PaymentClaimable events for one part: {}", desc)); }
+					rec.case(&op, &seen.answer(), "part:claimable", true);
+					self.deadline = Some(dl);
+					out = PartOut::Claimable;
+				} else {
+					rec.case(&op, &seen.answer(), "part:held", true);
+					out = PartOut::Held;
+				}
+			}
+			if !seen.fulfils.is_empty() || !seen.claimed.is_empty() { rec.oracle_fail(format!("[{}] `{}`: an incoming part released the preimage without a claim: {}", self.kind, op, seen.answer())); }
+			self.absorb(w, rec, &seen, &op);
+			if out == PartOut::Claimable { self.claimable_set = Some((self.held.iter().map(|h| h.id).collect(), self.deadline.unwrap_or(0), ev.is_some())); }
+			out
+		}
+
+		fn op_tick(&mut self, w: &mut World, rec: &mut Rec) {
+			if self.dead { return; }
+			let (tpos, epos) = (w.net.trace.len(), w.net.events[RECV].len());
+			if let Err(m) = self.drive(w, |w| w.net.nodes[RECV].node.timer_tick_occurred()) { rec.case("tick", &format!("panic {}", short(&m)), "tick:panic", true); return; }
+			let seen = observe(w, &self.hash, tpos, epos);
+			let did = !seen.nothing();
+			if !seen.fulfils.is_empty() || !seen.claimable.is_empty() || !seen.claimed.is_empty() { rec.oracle_fail(format!("[{}] a timer tick produced {}", self.kind, seen.answer())); }
+			rec.case("tick", &seen.answer(), if did { "tick:failall" } else if self.held.is_empty() { "tick:noop-empty" } else { "tick:noop-complete" }, did);
+			self.absorb(w, rec, &seen, "tick");
+		}
+
+		/// one block on every node (`time`: header timestamp for the receiver's block, to move its clock)
+		fn op_block(&mut self, w: &mut World, rec: &mut Rec, time: Option<u32>) {
+			if self.dead { return; }
+			let (tpos, epos) = (w.net.trace.len(), w.net.events[RECV].len());
+			let r = self.drive(w, |w| {
+				for i in 0..w.net.nodes.len() {
+					let n = &w.net.nodes[i];
+					match time { Some(t) if i == RECV => { let b = create_dummy_block(n.best_block_hash(), t, vec![]); connect_block(n, &b); }, _ => { connect_blocks(n, 1); } }
+				}
+			});
+			let op = format!("block {}", w.height());
+			if let Err(m) = r { rec.case(&op, &format!("panic {}", short(&m)), "block:panic", true); return; }
+			let seen = observe(w, &self.hash, tpos, epos);
+			let did = !seen.nothing();
+			if !seen.fulfils.is_empty() || !seen.claimable.is_empty() || !seen.claimed.is_empty() { rec.oracle_fail(format!("[{}] `{}` produced {}", self.kind, op, seen.answer())); }
+			let some_left = self.held.iter().any(|h| !seen.fails.contains(&h.id));
+			rec.case(&op, &seen.answer(), if !did { "block:noop" } else if some_left { "block:fail-some" } else { "block:fail-all" }, did);
+			self.absorb(w, rec, &seen, &op);
+		}
+
+		fn op_claim(&mut self, w: &mut World, rec: &mut Rec, known: bool) {
+			if self.dead { return; }
+			let (tpos, epos) = (w.net.trace.len(), w.net.events[RECV].len());
+			let height = w.height();
+			let pre = self.preimage;
+			let op = format!("claim {}", known as u8);
+			let r = self.drive(w, |w| { let n = w.net.nodes[RECV].node; if known { n.claim_funds_with_known_custom_tlvs(pre) } else { n.claim_funds(pre) } });
+			if let Err(m) = r { rec.case(&op, &format!("panic {}", short(&m)), "claim:panic", true); return; }
+			let seen = observe(w, &self.hash, tpos, epos);
+			self.claim_oracles(w, rec, &seen, &op, height, known);
+			let class = if !seen.fulfils.is_empty() { "claim:fulfil" } else if !seen.fails.is_empty() { "claim:failall" } else if self.held.is_empty() { "claim:none" } else { "claim:none-dropped" };
+			rec.case(&op, &seen.answer(), class, true);
+			if seen.nothing() && !self.held.is_empty() {
+				// begin_claiming_payment removed the entry and claim_payment_internal dropped the HTLCs without
+				// failing them: they stay in the channels until they time out on chain
+				self.stuck = true; self.dead = true; self.held.clear();
+			}
+			let claimed = !seen.claimed.is_empty();
+			self.absorb(w, rec, &seen, &op);
+			self.claimable_set = None;
+			if claimed { rec.case("claimdone", "none", "claimdone", false); }
+		}
+
+		/// oracles 2, 3, 4 on the outcome of a claim
+		fn claim_oracles(&mut self, w: &World, rec: &mut Rec, seen: &Seen, op: &str, height: u32, known: bool) {
+			let desc = format!("[{}] `{}` at height {} -> {} with held parts {:?}", self.kind, op, height, seen.answer(), self.held);
+			if !seen.fulfils.is_empty() && !seen.fails.is_empty() { rec.oracle_fail(format!("a claim both fulfilled and failed HTLCs: {}", desc)); }
+			if !seen.claimable.is_empty() { rec.oracle_fail(format!("a claim produced PaymentClaimable: {}", desc)); }
+			if !seen.fulfils.is_empty() {
+				let ids: Vec<u64> = { let mut v: Vec<u64> = self.held.iter().map(|h| h.id).collect(); v.sort(); v };
+				let sum: u64 = self.held.iter().map(|h| h.value).sum();
+				let sum_int: u64 = self.held.iter().map(|h| h.intended).sum();
+				let total = self.held.first().map(|h| h.total).unwrap_or(0);
+				if seen.fulfils != ids { rec.oracle_fail(format!("a claim did not fulfil exactly the held parts {:?}: {}", ids, desc)); }
+				if sum_int < total { rec.oracle_fail(format!("an incomplete set was claimed (sum intended {} < total_msat {}): {}", sum_int, total, desc)); }
+				if seen.claimed.len() != 1 || seen.claimed[0] != sum { rec.oracle_fail(format!("PaymentClaimed {:?} != sum of the fulfilled HTLC values {}: {}", seen.claimed, sum, desc)); }
+				self.claimed_total += sum;
+				let bal = w.recv_balance();
+				if bal != self.bal0 + self.claimed_total { rec.oracle_fail(format!("receiver balance moved by {} msat, claimed {} msat: {}", bal as i128 - self.bal0 as i128, self.claimed_total, desc)); }
+			} else if !seen.claimed.is_empty() {
+				rec.oracle_fail(format!("PaymentClaimed without any update_fulfill_htlc: {}", desc));
+			}
+			if let Some((ids, deadline, ev)) = &self.claimable_set {
+				if height < *deadline && (known || !*ev) && !ids.iter().all(|i| seen.fulfils.contains(i)) {
+					rec.oracle_fail(format!("claim before the claim_deadline {} did not fulfil every part of the PaymentClaimable set {:?}: {}", deadline, ids, desc));
+				}
+			}
+		}
+
+		/// `claim` whose monitor updates stay InProgress on the channel(s) of the set while a new part for
+		/// the same hash arrives over another channel (pending_claiming_payments still has the hash), then
+		/// the updates complete.  Emitted as `claim` (fulfils + claimed), `part` (the late part), `claimdone`.
+		/// Effects are attributed by HTLC id: whatever happens to the late part belongs to the `part` line.
+		fn op_claim_with_late_part(&mut self, w: &mut World, rec: &mut Rec, known: bool, late: &PartSpec) {
+			if self.dead { return; }
+			let hold: BTreeSet<usize> = w.routes.iter().map(|r| r.1).filter(|c| self.held.iter().any(|h| h.id / 1_000_000 == w.rank[*c])).collect();
+			let (from, chan) = w.routes[late.route % w.routes.len()];
+			if hold.contains(&chan) || self.held.is_empty() { self.op_claim(w, rec, known); return; }
+			let (tpos, epos) = (w.net.trace.len(), w.net.events[RECV].len());
+			let height = w.height();
+			let pre = self.preimage;
+			let claim_op = format!("claim {}", known as u8);
+			let r = guarded(AssertUnwindSafe(|| {
+				w.net.set_mode(RECV, true);
+				let n = w.net.nodes[RECV].node;
+				if known { n.claim_funds_with_known_custom_tlvs(pre) } else { n.claim_funds(pre) }
+				w.net.pump_all();
+				settle_holding(&mut w.net, &hold);
+			}));
+			if let Err(m) = r { w.bad = true; self.dead = true; rec.case(&claim_op, &format!("panic {}", short(&m)), "claim:panic", true); return; }
+			let early = observe(w, &self.hash, tpos, epos);
+			// the late part
+			let onion = self.onion(late, self.secrets[late.sec % self.secrets.len()]);
+			let hash = self.hash;
+			let sent = guarded(AssertUnwindSafe(|| send_raw(w, from, chan, hash, onion, late.amt, late.delta)));
+			let add = match sent { Ok(Ok(a)) => Some(a), Ok(Err(_)) => None, Err(_) => { w.bad = true; None } };
+			let late_id = add.as_ref().map(|a| w.rank[chan] * 1_000_000 + a.htlc_id);
+			let r = guarded(AssertUnwindSafe(|| {
+				settle_holding(&mut w.net, &hold);
+				w.net.set_mode(RECV, false);
+				for _ in 0..10 {
+					let mut any = false;
+					for c in hold.iter() { for id in w.net.pending_updates(RECV, *c) { any |= w.net.complete(RECV, *c, id); } }
+					w.net.settle(60);
+					if !any { break; }
+				}
+			}));
+			if let Err(m) = r { w.bad = true; self.dead = true; rec.case(&claim_op, &format!("panic {}", short(&m)), "claim:panic", true); return; }
+			let all = observe(w, &self.hash, tpos, epos);
+			let mut of_claim = Seen::default(); let mut of_part = Seen::default();
+			for i in &all.fails { if Some(*i) == late_id { of_part.fails.push(*i) } else { of_claim.fails.push(*i) } }
+			for i in &all.fulfils { if Some(*i) == late_id { of_part.fulfils.push(*i) } else { of_claim.fulfils.push(*i) } }
+			of_claim.claimed = all.claimed.clone();
+			of_part.claimable = all.claimable.clone();
+			if !early.nothing() { rec.oracle_fail(format!("[{}] `{}` with its monitor updates still in progress already produced {}", self.kind, claim_op, early.answer())); }
+			self.claim_oracles(w, rec, &of_claim, &claim_op, height, known);
+			rec.case(&claim_op, &of_claim.answer(), if !of_claim.fulfils.is_empty() { "claim:fulfil-async" } else if !of_claim.fails.is_empty() { "claim:failall" } else { "claim:none" }, true);
+			if let (Some(a), Some(id)) = (add, late_id) {
+				let ev = late.tlv.even();
+				let tag = (late.sec % self.secrets.len()) as u64 * 1000 + match ev { None => 1, Some(v) => 2 + v as u64 };
+				let op = format!("part {} {} {} {} {} {} {}", id, a.amount, late.amt, late.total, a.cltv, tag, ev.is_some() as u8);
+				if !of_part.fulfils.is_empty() || !of_part.claimable.is_empty() { rec.oracle_fail(format!("[{}] `{}` arriving while the payment is being claimed produced {}", self.kind, op, of_part.answer())); }
+				if of_part.fails.is_empty() { self.held.push(Held { id, value: a.amount, intended: late.amt, total: late.total, cltv: a.cltv }); }
+				rec.case(&op, &of_part.answer(), if of_part.fails.is_empty() { "part:held-during-claim" } else { "part:rejected-during-claim" }, true);
+			} else { self.dead = true; rec.discarded += 1; }
+			let claimed = !all.claimed.is_empty();
+			self.absorb(w, rec, &all, &claim_op);
+			self.claimable_set = None;
+			if claimed { rec.case("claimdone", "none", "claimdone", false); }
+		}
+
+		fn op_failback(&mut self, w: &mut World, rec: &mut Rec) {
+			if self.dead { return; }
+			let (tpos, epos) = (w.net.trace.len(), w.net.events[RECV].len());
+			let hash = self.hash;
+			if let Err(m) = self.drive(w, |w| w.net.nodes[RECV].node.fail_htlc_backwards(&hash)) { rec.case("failback", &format!("panic {}", short(&m)), "failback:panic", true); return; }
+			let seen = observe(w, &self.hash, tpos, epos);
+			if !seen.fulfils.is_empty() || !seen.claimable.is_empty() || !seen.claimed.is_empty() { rec.oracle_fail(format!("[{}] failback produced {}", self.kind, seen.answer())); }
+			let ids: Vec<u64> = { let mut v: Vec<u64> = self.held.iter().map(|h| h.id).collect(); v.sort(); v };
+			if seen.fails != ids { rec.oracle_fail(format!("[{}] fail_htlc_backwards failed {:?}, held were {:?}", self.kind, seen.fails, ids)); }
+			rec.case("failback", &seen.answer(), if seen.fails.is_empty() { "failback:none" } else { "failback:failall" }, true);
+			self.absorb(w, rec, &seen, "failback");
+			self.claimable_set = None;
+		}
+
+		/// connect single blocks until the receiver is at `target`
+		fn blocks_to(&mut self, w: &mut World, rec: &mut Rec, target: u32) {
+			let mut guard = 0;
+			while !self.dead && w.height() < target && guard < 200 { self.op_block(w, rec, None); guard += 1; }
+		}
+
+		/// un-modelled stream: a part that must be refused before it reaches the accumulator
+		fn bad_part(&mut self, w: &mut World, rec: &mut Rec, what: &str, route: usize, amt: u64, total: u64, secret: PaymentSecret, bad: &mut BTreeMap<String, u64>) {
+			if self.dead { return; }
+			let (from, chan) = w.routes[route % w.routes.len()];
+			let (tpos, epos) = (w.net.trace.len(), w.net.events[RECV].len());
+			let hash = self.hash;
+			let onion = RecipientOnionFields::secret_only(secret, total);
+			let sent = guarded(AssertUnwindSafe(|| send_raw(w, from, chan, hash, onion, amt, 80)));
+			let add = match sent { Ok(Ok(a)) => a, Ok(Err(_)) => { self.dead = true; rec.discarded += 1; return; }, Err(_) => { self.dead = true; w.bad = true; rec.discarded += 1; return; } };
+			let id = w.rank[chan] * 1_000_000 + add.htlc_id;
+			let desc = format!("{} part id={} amt={} total_msat={} min={} secret={} hash={} (held valid parts {:?})", what, id, amt, total, self.min, hex(&secret.0), hex(&hash.0), self.held);
+			if let Err(m) = self.drive(w, |_| {}) { rec.oracle_fail(format!("panic while receiving a {}: {}", desc, short(&m))); return; }
+			let seen = observe(w, &self.hash, tpos, epos);
+			if !seen.claimable.is_empty() || !seen.fulfils.is_empty() || !seen.claimed.is_empty() { rec.oracle_fail(format!("a {} produced {}", desc, seen.answer())); }
+			if seen.fails != vec![id] { rec.oracle_fail(format!("a {} was not (only) failed back: {}", desc, seen.answer())); }
+			*bad.entry(format!("unmodelled:{}:{}", what, if seen.fails == vec![id] { "failed" } else { "NOT-failed" })).or_insert(0) += 1;
+			self.absorb(w, rec, &seen, what);
+		}
+
+		/// leave the receiver clean for the next scenario (not recorded: the next op is `new`)
+		fn finish(mut self, w: &mut World) {
+			if self.stuck { w.bad = true; }
+			if w.bad { return; }
+			let hash = self.hash;
+			let _ = self.drive(w, |w| w.net.nodes[RECV].node.fail_htlc_backwards(&hash));
+			if w.bad { return; }
+			let seen = observe(w, &self.hash, 0, 0);
+			for i in &seen.fails { w.failed.insert(*i); }
+			for i in &seen.fulfils { w.fulfilled.insert(*i); }
+			if w.recv_has_pending_htlcs() || !w.net.closed.is_empty() { w.bad = true; }
+		}
+	}
+
+	// ------------------------------------------------------------------------------------------------
+	// schedule generators
+	// ------------------------------------------------------------------------------------------------
+
+	fn split(rng: &mut Rng, total: u64, k: usize) -> Vec<u64> {
+		// k amounts >= 1000 msat (the channels' htlc_minimum_msat) summing to total
+		let mut v = vec![1000u64; k];
+		let mut rest = total - 1000 * k as u64;
+		for i in 0..k - 1 { let x = rng.below(rest + 1); v[i] += x; rest -= x; }
+		v[k - 1] += rest;
+		v
+	}
+
+	fn pick_total(rng: &mut Rng, k: usize) -> u64 {
+		let lo = 1000 * k as u64;
+		match rng.below(10) { 0 => lo, 1 | 2 => lo + rng.below(5_000), 3 => 1_000_000 + rng.below(20_000_000), _ => lo + 10_000 + rng.below(3_000_000) }
+	}
+
+	fn pick_min(rng: &mut Rng, total: u64) -> Option<u64> {
+		match rng.below(4) { 0 => None, 1 => Some(total), 2 => Some(1 + rng.below(total)), _ => Some(total / 2 + 1) }
+	}
+
+	struct Gen<'a> { rng: &'a mut Rng, routes: usize }
+	impl<'a> Gen<'a> {
+		fn delta(&mut self) -> u32 { 60 + self.rng.below(50) as u32 }
+		fn parts(&mut self, amts: &[u64], total: u64, tlv: Tlv, same_delta: bool) -> Vec<PartSpec> {
+			let d0 = self.delta();
+			amts.iter().map(|a| PartSpec { route: self.rng.below(self.routes as u64) as usize, amt: *a, total, delta: if same_delta { d0 } else { self.delta() }, sec: 0, tlv }).collect()
+		}
+	}
+
+	/// what to do with a complete (claimable) set; `ev`: the set carries an even TLV
+	fn tail_complete(w: &mut World, rec: &mut Rec, rng: &mut Rng, s: &mut Scn, ev: bool, total: u64) {
+		let known = if ev { rng.chance(1, 2) } else { rng.chance(1, 5) };
+		match rng.below(12) {
+			0 | 1 | 2 => s.op_claim(w, rec, known),
+			3 => { s.op_claim(w, rec, known); s.op_claim(w, rec, rng.chance(1, 2)); },
+			4 => { s.op_claim(w, rec, known); s.op_failback(w, rec); },
+			5 => s.op_failback(w, rec),
+			6 => { s.op_failback(w, rec); if rng.chance(1, 2) { s.op_claim(w, rec, known) } else { s.op_failback(w, rec) } },
+			7 => { for _ in 0..1 + rng.below(3) { s.op_tick(w, rec); } s.op_claim(w, rec, known); },
+			8 => { for _ in 0..1 + rng.below(3) { s.op_block(w, rec, None); } if rng.chance(1, 3) { s.op_tick(w, rec); } s.op_claim(w, rec, known); },
+			_ => {
+				// claim, then a brand-new part under the same hash starts a new set
+				s.op_claim(w, rec, known);
+				if s.dead { return; }
+				let mut g = Gen { rng: &mut *rng, routes: w.routes.len() };
+				let tlv = if ev && g.rng.chance(1, 2) { Tlv::Even(7) } else { Tlv::No };
+				let amt = if total < 2001 || g.rng.chance(1, 2) { total } else { 1000 + g.rng.below(total - 2000) };
+				let p = g.parts(&[amt], total, tlv, true).remove(0);
+				let out = s.op_part(w, rec, &p);
+				match (out, rng.below(3)) {
+					(PartOut::Claimable, 0) => s.op_claim(w, rec, tlv.even().is_some() || rng.chance(1, 4)),
+					(PartOut::Claimable, 1) => s.op_failback(w, rec),
+					(PartOut::Claimable, _) => { s.op_tick(w, rec); s.op_claim(w, rec, true); },
+					(PartOut::Held, 0) => s.op_failback(w, rec),
+					(PartOut::Held, _) => { s.op_tick(w, rec); s.op_claim(w, rec, true); },
+					_ => {},
+				}
+			},
+		}
+	}
+
+	fn send_all(w: &mut World, rec: &mut Rec, rng: &mut Rng, s: &mut Scn, parts: &[PartSpec], blocks_between: bool) -> PartOut {
+		let mut last = PartOut::Abort;
+		for (i, p) in parts.iter().enumerate() {
+			last = s.op_part(w, rec, p);
+			if last == PartOut::Abort { break; }
+			if blocks_between && i + 1 < parts.len() && rng.chance(1, 2) { for _ in 0..1 + rng.below(2) { s.op_block(w, rec, None); } }
+		}
+		last
+	}
+
+	const KINDS: &[(&str, u64)] = &[
+		("exact", 22), ("overlast", 6), ("tick-between", 10), ("under", 9), ("over", 9), ("bad-total", 8), ("tlv-mix", 10), ("even-all", 8),
+		("secret-mix", 6), ("deadline", 12), ("unmodelled", 9), ("during-claim", 7),
+	];
+	/// schedules that leave HTLCs stuck in the receiver's channels: run as the last scenario of a network
+	const LAST_KINDS: &[&str] = &["claim-incomplete", "deadline-drop", "under-claim"];
+
+	fn run_scenario(w: &mut World, rec: &mut Rec, rng: &mut Rng, kind: &'static str, bad: &mut BTreeMap<String, u64>) {
+		let nroutes = w.routes.len();
+		match kind {
+			"exact" | "overlast" => {
+				let k = 1 + rng.below(4) as usize;
+				let total = pick_total(rng, k);
+				let mut amts = split(rng, total, k);
+				if kind == "overlast" { let i = rng.below(k as u64) as usize; amts[i] += 1 + rng.below(50_000); let l = amts.remove(i); amts.push(l); }
+				let tlv = match rng.below(8) { 0 => Tlv::Odd(rng.below(4) as u8), _ => Tlv::No };
+				let min = pick_min(rng, total);
+				let mut s = Scn::new(w, rec, rng, kind, min, false, 7200);
+				let mut g = Gen { rng: &mut *rng, routes: nroutes };
+				let same = g.rng.chance(1, 2);
+				let mut parts = g.parts(&amts, total, tlv, same);
+				if tlv != Tlv::No { for p in parts.iter_mut() { if rng.chance(1, 2) { p.tlv = if rng.chance(1, 2) { Tlv::No } else { Tlv::Odd(rng.below(4) as u8) }; } } }
+				let blocks = rng.chance(1, 3);
+				if send_all(w, rec, rng, &mut s, &parts, blocks) == PartOut::Claimable { tail_complete(w, rec, rng, &mut s, false, total); }
+				s.finish(w);
+			},
+			"tick-between" => {
+				let k = 2 + rng.below(3) as usize;
+				let total = pick_total(rng, k);
+				let amts = split(rng, total, k);
+				let j = 1 + rng.below(k as u64 - 1) as usize;
+				let min = pick_min(rng, total);
+				let mut s = Scn::new(w, rec, rng, kind, min, false, 7200);
+				let mut g = Gen { rng: &mut *rng, routes: nroutes };
+				let parts = g.parts(&amts, total, Tlv::No, false);
+				let blocks = rng.chance(1, 4);
+				send_all(w, rec, rng, &mut s, &parts[..j], blocks);
+				s.op_tick(w, rec);
+				if rng.chance(1, 4) { s.op_tick(w, rec); }
+				if rng.chance(1, 2) {
+					// the remaining parts start a new, incomplete, set
+					send_all(w, rec, rng, &mut s, &parts[j..], false);
+					match rng.below(3) { 0 => s.op_failback(w, rec), 1 => { s.op_tick(w, rec); s.op_claim(w, rec, false); }, _ => { s.op_block(w, rec, None); s.op_tick(w, rec); } }
+				} else {
+					let amts2 = split(rng, total, k);
+					let mut g = Gen { rng: &mut *rng, routes: nroutes };
+					let parts2 = g.parts(&amts2, total, Tlv::No, false);
+					if send_all(w, rec, rng, &mut s, &parts2, false) == PartOut::Claimable { tail_complete(w, rec, rng, &mut s, false, total); }
+				}
+				s.finish(w);
+			},
+			"under" | "under-claim" | "claim-incomplete" => {
+				let k = 1 + rng.below(3) as usize;
+				let total = pick_total(rng, k + 1);
+				let mut amts = split(rng, total, k + 1);
+				amts.pop();
+				let min = pick_min(rng, total);
+				let mut s = Scn::new(w, rec, rng, kind, min, false, 7200);
+				let mut g = Gen { rng: &mut *rng, routes: nroutes };
+				let mut parts = g.parts(&amts, total, Tlv::No, false);
+				// claim_funds on an incomplete set whose parts are not in (channel_id, htlc_id) order trips a
+				// debug_assert (see probe_unsorted_incomplete_claim): keep arrival order sorted for the claiming kinds
+				if kind != "under" { parts.sort_by_key(|p| w.rank[w.routes[p.route % nroutes].1]); }
+				let blocks = rng.chance(1, 4);
+				send_all(w, rec, rng, &mut s, &parts, blocks);
+				if kind == "under" {
+					match rng.below(5) {
+						0 | 1 => s.op_tick(w, rec),
+						2 => { s.op_tick(w, rec); s.op_tick(w, rec); s.op_claim(w, rec, false); },
+						3 => s.op_failback(w, rec),
+						_ => { s.op_failback(w, rec); s.op_tick(w, rec); s.op_failback(w, rec); },
+					}
+				} else {
+					// claim_funds on an incomplete set: the entry is removed and the HTLCs are dropped, not failed
+					if kind == "under-claim" { s.op_block(w, rec, None); }
+					s.op_claim(w, rec, rng.chance(1, 2));
+					if !s.dead { s.op_tick(w, rec); }
+				}
+				s.finish(w);
+			},
+			"over" => {
+				let k = 1 + rng.below(3) as usize;
+				let total = pick_total(rng, k);
+				let amts = split(rng, total, k);
+				let min = pick_min(rng, total);
+				let mut s = Scn::new(w, rec, rng, kind, min, false, 7200);
+				let mut g = Gen { rng: &mut *rng, routes: nroutes };
+				let parts = g.parts(&amts, total, Tlv::No, false);
+				if send_all(w, rec, rng, &mut s, &parts, false) == PartOut::Claimable {
+					for _ in 0..1 + rng.below(2) {
+						let mut g = Gen { rng: &mut *rng, routes: nroutes };
+						let extra = 1000 + g.rng.below(total);
+						let p = g.parts(&[extra], total, Tlv::No, true).remove(0);
+						s.op_part(w, rec, &p);
+						if rng.chance(1, 4) { s.op_tick(w, rec); }
+					}
+					tail_complete(w, rec, rng, &mut s, false, total);
+				}
+				s.finish(w);
+			},
+			"bad-total" => {
+				let k = 2 + rng.below(2) as usize;
+				let total = pick_total(rng, k) + 2000;
+				let amts = split(rng, total, k);
+				let min = pick_min(rng, total).map(|m| m.min(total - 1000));
+				let mut s = Scn::new(w, rec, rng, kind, min, false, 7200);
+				let mut g = Gen { rng: &mut *rng, routes: nroutes };
+				let mut parts = g.parts(&amts, total, Tlv::No, false);
+				// one part announces another total_msat (still >= the invoice minimum): refused by check_merge
+				let other = if rng.chance(1, 2) { total + 1 + rng.below(5000) } else { (total - 1 - rng.below(1000)).max(s.min) };
+				let at = 1 + rng.below(k as u64) as usize; // after the first part; `k` = after completion
+				let mut intruder = parts[at - 1].clone();
+				intruder.total = other; intruder.route = rng.below(nroutes as u64) as usize;
+				if other == total { intruder.total = total + 1; }
+				parts.insert(at, intruder);
+				if send_all(w, rec, rng, &mut s, &parts, false) != PartOut::Abort && s.claimable_set.is_some() { tail_complete(w, rec, rng, &mut s, false, total); }
+				else if !s.dead { s.op_tick(w, rec); }
+				s.finish(w);
+			},
+			"tlv-mix" | "even-all" => {
+				let k = if kind == "even-all" { 1 + rng.below(3) as usize } else { 2 + rng.below(2) as usize };
+				let total = pick_total(rng, k);
+				let amts = split(rng, total, k);
+				let v = rng.below(5) as u8;
+				let base = if kind == "even-all" { if rng.chance(1, 4) { Tlv::Both(v, 1) } else { Tlv::Even(v) } } else { match rng.below(3) { 0 => Tlv::No, 1 => Tlv::Even(v), _ => Tlv::Both(v, 9) } };
+				let min = pick_min(rng, total);
+				let mut s = Scn::new(w, rec, rng, kind, min, false, 7200);
+				let mut g = Gen { rng: &mut *rng, routes: nroutes };
+				let mut parts = g.parts(&amts, total, base, false);
+				if kind == "tlv-mix" {
+					// parts after the first may differ in their ODD TLVs only; one intruder differs in the EVEN ones
+					for p in parts.iter_mut().skip(1) { if rng.chance(1, 3) { p.tlv = match base.even() { None => Tlv::Odd(rng.below(4) as u8), Some(e) => if rng.chance(1, 2) { Tlv::Even(e) } else { Tlv::Both(e, rng.below(4) as u8) } }; } }
+					let at = 1 + rng.below(k as u64) as usize;
+					let mut intruder = parts[at - 1].clone();
+					intruder.tlv = match base.even() { None => if rng.chance(1, 2) { Tlv::Even(v) } else { Tlv::Both(v, 3) }, Some(e) => match rng.below(3) { 0 => Tlv::No, 1 => Tlv::Odd(2), _ => Tlv::Even(e + 1) } };
+					parts.insert(at, intruder);
+				}
+				send_all(w, rec, rng, &mut s, &parts, false);
+				if s.claimable_set.is_some() { tail_complete(w, rec, rng, &mut s, base.even().is_some(), total); } else if !s.dead { s.op_failback(w, rec); }
+				s.finish(w);
+			},
+			"secret-mix" => {
+				let k = 2 + rng.below(2) as usize;
+				let total = pick_total(rng, k);
+				let amts = split(rng, total, k);
+				let min = pick_min(rng, total);
+				let mut s = Scn::new(w, rec, rng, kind, min, true, 7200);
+				let mut g = Gen { rng: &mut *rng, routes: nroutes };
+				let mut parts = g.parts(&amts, total, Tlv::No, false);
+				let main = rng.below(2) as usize;
+				for p in parts.iter_mut() { p.sec = main; }
+				let at = 1 + rng.below(k as u64) as usize;
+				let mut intruder = parts[at - 1].clone();
+				intruder.sec = 1 - main;
+				parts.insert(at, intruder);
+				send_all(w, rec, rng, &mut s, &parts, false);
+				if s.claimable_set.is_some() { tail_complete(w, rec, rng, &mut s, false, total); } else if !s.dead { s.op_tick(w, rec); }
+				s.finish(w);
+			},
+			"deadline" | "deadline-drop" => {
+				let k = if kind == "deadline-drop" { 2 + rng.below(2) as usize } else { 1 + rng.below(3) as usize };
+				let total = pick_total(rng, k);
+				let amts = split(rng, total, k);
+				let min = pick_min(rng, total);
+				let mut s = Scn::new(w, rec, rng, kind, min, false, 7200);
+				let mut g = Gen { rng: &mut *rng, routes: nroutes };
+				let same = kind == "deadline" && g.rng.chance(1, 2);
+				let mut parts = g.parts(&amts, total, Tlv::No, same);
+				for p in parts.iter_mut() { p.delta = 60 + (p.delta - 60) % 7; }
+				if kind == "deadline-drop" { parts[0].delta = 60; parts[1].delta = 63 + rng.below(4) as u32; }
+				let blocks = rng.chance(1, 4);
+				if send_all(w, rec, rng, &mut s, &parts, blocks) == PartOut::Claimable {
+					let d = s.deadline.unwrap_or(0);
+					if kind == "deadline" && rng.chance(1, 2) {
+						// last height at which the claim is still honoured
+						s.blocks_to(w, rec, d - 1 - if rng.chance(1, 4) { rng.below(3) as u32 } else { 0 });
+						s.op_claim(w, rec, rng.chance(1, 5));
+					} else {
+						// the block that reaches the deadline fails the parts whose own cltv - 39 <= height
+						s.blocks_to(w, rec, d);
+						if s.held.is_empty() { s.op_claim(w, rec, false); if rng.chance(1, 2) { s.op_failback(w, rec); } }
+						else if kind == "deadline-drop" { s.op_claim(w, rec, rng.chance(1, 2)); }
+						else {
+							match rng.below(3) {
+								0 => s.op_failback(w, rec),
+								1 => { s.op_tick(w, rec); s.op_claim(w, rec, false); },
+								_ => { let last = s.held.iter().map(|h| h.cltv).max().unwrap_or(0).saturating_sub(HTLC_FAIL_BACK_BUFFER); s.blocks_to(w, rec, last); s.op_claim(w, rec, false); },
+							}
+						}
+					}
+				}
+				s.finish(w);
+			},
+			"during-claim" => {
+				// the whole set arrives over ONE channel; a late part comes over another one while the claim is in flight
+				let k = 1 + rng.below(2) as usize;
+				let total = pick_total(rng, k);
+				let amts = split(rng, total, k);
+				let min = pick_min(rng, total);
+				let ev = rng.chance(1, 4);
+				let tlv = if ev { Tlv::Even(3) } else { Tlv::No };
+				let mut s = Scn::new(w, rec, rng, kind, min, false, 7200);
+				let mut g = Gen { rng: &mut *rng, routes: nroutes };
+				let mut parts = g.parts(&amts, total, tlv, false);
+				let r0 = parts[0].route;
+				for p in parts.iter_mut() { p.route = r0; }
+				if send_all(w, rec, rng, &mut s, &parts, false) == PartOut::Claimable {
+					let mut g = Gen { rng: &mut *rng, routes: nroutes };
+					let amt = if g.rng.chance(1, 2) { total } else { 1000 + g.rng.below(total) };
+					let mut late = g.parts(&[amt], total, tlv, true).remove(0);
+					late.route = (r0 + 1 + rng.below(nroutes as u64 - 1) as usize) % nroutes;
+					s.op_claim_with_late_part(w, rec, ev || rng.chance(1, 5), &late);
+					// afterwards the hash is free again
+					if !s.dead && rng.chance(1, 2) {
+						let mut g = Gen { rng: &mut *rng, routes: nroutes };
+						let p = g.parts(&[total], total, Tlv::No, true).remove(0);
+						if s.op_part(w, rec, &p) == PartOut::Claimable { if rng.chance(1, 2) { s.op_claim(w, rec, false) } else { s.op_failback(w, rec) } }
+					}
+				}
+				s.finish(w);
+			},
+			"unmodelled" => {
+				let total = pick_total(rng, 2) + 2;
+				let amts = split(rng, total, 2);
+				let min = Some(match rng.below(3) { 0 => total, 1 => total / 2 + 1, _ => 2 + rng.below(total - 1) });
+				let what = *rng.pick(&["wrong-secret", "below-minimum", "expired-invoice"]);
+				let mut s = Scn::new(w, rec, rng, kind, min, false, if what == "expired-invoice" { 1 } else { 7200 });
+				let with_valid_first = rng.chance(1, 2);
+				if with_valid_first {
+					let mut g = Gen { rng: &mut *rng, routes: nroutes };
+					let p = g.parts(&amts[..1], total, Tlv::No, true).remove(0);
+					s.op_part(w, rec, &p);
+				}
+				let rest = if with_valid_first { amts[1] } else { total };
+				let route = rng.below(nroutes as u64) as usize;
+				let good = s.secrets[0];
+				match what {
+					"wrong-secret" => { let mut x = good; let b = rng.below(256) as usize; x.0[b / 8] ^= 1 << (b % 8); s.bad_part(w, rec, what, route, rest, total, x, bad); },
+					"below-minimum" => { let low = s.min - 1 - rng.below(s.min.min(1000)); let low = low.max(1); s.bad_part(w, rec, what, route, rest.min(low).max(1000), low, good, bad); },
+					_ => {
+						// move the receiver's clock past the invoice expiry (creation time + 1 s + 7200 s of grace)
+						w.clock += 7200 + 10;
+						let t = w.clock;
+						s.op_block(w, rec, Some(t));
+						s.bad_part(w, rec, what, route, rest, total, good, bad);
+					},
+				}
+				if !s.dead { if rng.chance(1, 2) { s.op_tick(w, rec) } else { s.op_failback(w, rec) } }
+				s.finish(w);
+			},
+			_ => unreachable!(),
+		}
+	}
+
+	// ------------------------------------------------------------------------------------------------
+	// probes (never part of the compared stream)
+	// ------------------------------------------------------------------------------------------------
+
+	/// complete set -> a block removes some but not all parts -> a new part arrives -> claim:
+	/// parts with different `total_value_received` reach `claim_payment_internal` (its `debug_assert!(false)` branch)
+	fn probe_inconsistent_claim(rng: &mut Rng) -> String {
+		let mut w = match build_world(rng, true) { Ok(w) => w, Err(e) => return format!("could not build the network: {}", short(&e)) };
+		let mut scratch = Rec::new(&probe_dir(), "probe1");
+		let mut s = Scn::new(&mut w, &mut scratch, rng, "probe", None, false, 7200);
+		let total = 300_000;
+		// the surviving part and the late part share a channel, so that the set stays in (channel_id, htlc_id) order
+		let a = PartSpec { route: 0, amt: 100_000, total, delta: 60, sec: 0, tlv: Tlv::No };
+		let b = PartSpec { route: 1, amt: 200_000, total, delta: 66, sec: 0, tlv: Tlv::No };
+		s.op_part(&mut w, &mut scratch, &a);
+		if s.op_part(&mut w, &mut scratch, &b) != PartOut::Claimable { std::mem::forget(w); return "set-up failed: the two parts did not become claimable".into(); }
+		let d = s.deadline.unwrap_or(0);
+		s.blocks_to(&mut w, &mut scratch, d);
+		if s.held.len() != 1 { std::mem::forget(w); return format!("set-up failed: {} parts left after the deadline block", s.held.len()); }
+		let c = PartSpec { route: 1, amt: 50_000, total, delta: 70, sec: 0, tlv: Tlv::No };
+		let o = s.op_part(&mut w, &mut scratch, &c);
+		if o != PartOut::Held { std::mem::forget(w); return format!("set-up failed: the late part was {:?}", o); }
+		let (tpos, epos) = (w.net.trace.len(), w.net.events[RECV].len());
+		let pre = s.preimage;
+		let r = s.drive(&mut w, |w| w.net.nodes[RECV].node.claim_funds(pre));
+		let out = match r {
+			Err(m) => format!("panicked in claim_funds: {}", short(&m)),
+			Ok(()) => format!("no panic; claim_funds -> {}", observe(&w, &s.hash, tpos, epos).answer()),
+		};
+		std::mem::forget(w);
+		out
+	}
+
+	/// claim_funds on an INCOMPLETE set whose parts arrived out of (channel_id, htlc_id) order:
+	/// `begin_claiming_payment` -> `inbound_payment_id` -> `PaymentId::for_inbound_from_htlcs` (`debug_assert!(prev < ..)`)
+	fn probe_unsorted_incomplete_claim(rng: &mut Rng) -> String {
+		let mut w = match build_world(rng, true) { Ok(w) => w, Err(e) => return format!("could not build the network: {}", short(&e)) };
+		let mut scratch = Rec::new(&probe_dir(), "probe3");
+		let mut s = Scn::new(&mut w, &mut scratch, rng, "probe", None, false, 7200);
+		let total = 300_000;
+		// first the channel with the larger channel_id, then the smaller one
+		let hi = if w.rank[w.routes[0].1] > w.rank[w.routes[1].1] { 0 } else { 1 };
+		let a = PartSpec { route: hi, amt: 100_000, total, delta: 80, sec: 0, tlv: Tlv::No };
+		let b = PartSpec { route: 1 - hi, amt: 100_000, total, delta: 80, sec: 0, tlv: Tlv::No };
+		if s.op_part(&mut w, &mut scratch, &a) != PartOut::Held || s.op_part(&mut w, &mut scratch, &b) != PartOut::Held { std::mem::forget(w); return "set-up failed: the two parts were not held".into(); }
+		let (tpos, epos) = (w.net.trace.len(), w.net.events[RECV].len());
+		let pre = s.preimage;
+		let r = s.drive(&mut w, |w| w.net.nodes[RECV].node.claim_funds(pre));
+		let out = match r {
+			Err(m) => format!("panicked in claim_funds: {}", short(&m)),
+			Ok(()) => format!("no panic; claim_funds -> {} (both HTLCs stay pending in their channels)", observe(&w, &s.hash, tpos, epos).answer()),
+		};
+		std::mem::forget(w);
+		out
+	}
+
+	fn probe_dir() -> std::path::PathBuf { std::env::temp_dir().join(format!("c04mpp-probe-{}", std::process::id())) }
+
+	/// a complete, unclaimed payment receives 256 timer ticks (`MppPart::timer_ticks: u8`, `+= 1` per tick)
+	fn probe_timer_ticks(rng: &mut Rng) -> String {
+		let mut w = match build_world(rng, true) { Ok(w) => w, Err(e) => return format!("could not build the network: {}", short(&e)) };
+		let mut scratch = Rec::new(&probe_dir(), "probe2");
+		let mut s = Scn::new(&mut w, &mut scratch, rng, "probe", None, false, 7200);
+		let a = PartSpec { route: 0, amt: 100_000, total: 100_000, delta: 100, sec: 0, tlv: Tlv::No };
+		if s.op_part(&mut w, &mut scratch, &a) != PartOut::Claimable { std::mem::forget(w); return "set-up failed: the part did not become claimable".into(); }
+		let mut out = "survived 256 ticks; the payment stayed claimable".to_string();
+		for i in 1..=256u32 {
+			let r = guarded(AssertUnwindSafe(|| w.net.nodes[RECV].node.timer_tick_occurred()));
+			if let Err(m) = r { out = format!("panicked at tick {}: {}", i, short(&m)); break; }
+		}
+		if out.starts_with("survived") {
+			let (tpos, epos) = (w.net.trace.len(), w.net.events[RECV].len());
+			let pre = s.preimage;
+			let r = s.drive(&mut w, |w| w.net.nodes[RECV].node.claim_funds(pre));
+			out = match r { Ok(()) => format!("survived 256 ticks; claim_funds afterwards -> {}", observe(&w, &s.hash, tpos, epos).answer()), Err(m) => format!("survived 256 ticks; claim_funds afterwards panicked: {}", short(&m)) };
+		}
+		std::mem::forget(w);
+		out
+	}
+
+	// ------------------------------------------------------------------------------------------------
+
+	pub fn mpp_model(args: &Args) {
+		silence_stdout();
+		let mut rec = Rec::new(&args.out, "c04mpp");
+		let mut rng = Rng::new(args.seed);
+		let n_scen: u64 = if args.thorough { 3400 } else { 340 } * args.scale;
+		let per_world: u32 = if args.thorough { 40 } else { 30 };
+		let weight_total: u64 = KINDS.iter().map(|k| k.1).sum();
+		let mut kinds: BTreeMap<String, u64> = BTreeMap::new();
+		let mut bad_classes: BTreeMap<String, u64> = BTreeMap::new();
+		let (mut worlds, mut abandoned, mut build_failures) = (0u64, 0u64, 0u64);
+		let mut world: Option<World> = None;
+		let mut done = 0u64;
+		while done < n_scen {
+			if world.is_none() {
+				match build_world(&mut rng, false) { Ok(w) => { world = Some(w); worlds += 1; }, Err(_) => { build_failures += 1; if build_failures > 20 { break; } continue; } }
+			}
+			let w = world.as_mut().unwrap();
+			let last = w.used >= per_world;
+			let kind: &'static str = if last { *rng.pick(LAST_KINDS) } else {
+				let mut x = rng.below(weight_total);
+				let mut k = KINDS[0].0;
+				for (name, wt) in KINDS { if x < *wt { k = name; break; } x -= wt; }
+				k
+			};
+			run_scenario(w, &mut rec, &mut rng, kind, &mut bad_classes);
+			*kinds.entry(kind.to_string()).or_insert(0) += 1;
+			done += 1;
+			if w.bad || last {
+				if w.bad && !last { abandoned += 1; }
+				std::mem::forget(world.take());
+			}
+		}
+		if let Some(w) = world.take() { std::mem::forget(w); }
+		for (k, v) in bad_classes.iter() { *rec.classes.entry(k.clone()).or_insert(0) += *v; }
+		// probes
+		let p1 = probe_inconsistent_claim(&mut rng);
+		let p2 = probe_timer_ticks(&mut rng);
+		let p3 = probe_unsorted_incomplete_claim(&mut rng);
+		let _ = std::fs::remove_dir_all(probe_dir());
+		rec.notes.insert("probe_unsorted_incomplete_claim".into(), p3);
+		rec.notes.insert("probe_inconsistent_claim".into(), p1);
+		rec.notes.insert("probe_timer_ticks_u8".into(), p2);
+		let ks: Vec<String> = kinds.iter().map(|(k, v)| format!("{}={}", k, v)).collect();
+		rec.notes.insert("rule".into(), format!(
+			"{} scenarios (one fresh invoice / payment hash each) on {} real networks (sender, receiver, 2-3 parallel channels, sometimes a second sender; {} abandoned after a panic/protocol error, every network retired after {} scenarios with a schedule that leaves HTLCs dropped). \
+	Every part is its own single-path payment with the same hash+secret and a chosen total_msat; after each op everything is delivered and the receiver's update_fail/update_fulfill/PaymentClaimable/PaymentClaimed are recorded. \
+	Schedules: {}. exact = 1-4 part split in random order over random channels with random final CLTV deltas, blocks between parts; overlast = last part overshoots; tick-between = timer tick fails the held parts, later parts start a new set; under = under-payment then tick/failback; \
+	over = extra part(s) after completion; bad-total = a part with another total_msat; tlv-mix = even/odd custom TLV mismatches; even-all = same even TLV on all parts then claim 0 / claim 1; secret-mix = second valid secret for the same hash; \
+	during-claim = the set arrives over one channel, claim_funds runs with the receiver's monitor updates held InProgress on that channel, a new part arrives over another channel (failed: the hash is in pending_claiming_payments), then the updates complete (fulfils + PaymentClaimed are attributed to the claim line, the late part's failure to its part line); deadline = single blocks up to claim_deadline-1 then claim, or up to claim_deadline (parts fail by their own cltv) then claim/failback/tick/more blocks; claim-incomplete, under-claim, deadline-drop = claims that drop HTLCs silently (network abandoned afterwards); \
+	complete sets end with claim / double claim / claim+failback / failback / failback+claim / ticks+claim / blocks+claim / claim+new part under the same hash. \
+	unmodelled (impl oracle only, no part op): wrong payment secret (1 bit flipped), total_msat below the invoice minimum, expired invoice, each alone or as the completing part of a held set. intended == value on every part (direct hop). Three probes on throw-away networks are in the notes (never in the compared stream): probe_inconsistent_claim, probe_timer_ticks_u8, probe_unsorted_incomplete_claim. distinct = distinct non-trivial op lines",
+			done, worlds, abandoned, per_world, ks.join(" ")));
+		rec.finish();
 	}
 }
